@@ -128,4 +128,46 @@ func directedEdges(b *harness.B) {
 			b.Violate("C08/early-accept/v2-after-policy/median-of-timestamps-more-than-292-years-apart", fmt.Sprintf("previous timestamps {t0, t0+400y} (median t0+200y): a spend locked by after(t0+%dy) is accepted", c.lockYears), map[string]any{"lock_years": c.lockYears})
 		}
 	}
+	// (3) a median on a half second (two timestamps an odd number of seconds apart): after(T) holds from the first
+	// instant after T, so after(floor(median)) is satisfied and after(ceil(median)) is not
+	for _, c := range []struct {
+		lockOffset int64
+		accept     bool
+	}{{2, true}, {3, false}, {1, true}, {4, false}} {
+		n, g, _ := edgeNet(0)
+		t0 := g.Timestamp
+		lock := types.PolicyAfter(time.Unix(t0.Unix()+c.lockOffset, 0))
+		g.Transactions = []types.Transaction{{SiacoinOutputs: []types.SiacoinOutput{{Value: types.Siacoins(1), Address: lock.Address()}}}}
+		cs, au0 := consensus.ApplyBlock(n.GenesisState(), g, consensus.V1BlockSupplement{Transactions: make([]consensus.V1TransactionSupplement, 1)}, time.Time{})
+		var out *types.SiacoinElement
+		for _, d := range au0.SiacoinElementDiffs() {
+			if d.Created && d.SiacoinElement.SiacoinOutput.Address == lock.Address() {
+				e := d.SiacoinElement.Copy()
+				out = &e
+			}
+		}
+		b1, ok := edgeMine(cs, time.Unix(t0.Unix()+5, 0), types.VoidAddress, nil)
+		if out == nil || !ok || consensus.ValidateBlock(cs, b1, consensus.V1BlockSupplement{}) != nil {
+			b.Inconclusive("edge network: block 1 not accepted (half-second median)")
+			continue
+		}
+		cs1, au1 := consensus.ApplyBlock(cs, b1, consensus.V1BlockSupplement{}, t0)
+		au1.UpdateElementProof(&out.StateElement)
+		txn := types.V2Transaction{SiacoinInputs: []types.V2SiacoinInput{{Parent: out.Copy(), SatisfiedPolicy: types.SatisfiedPolicy{Policy: lock}}},
+			SiacoinOutputs: []types.SiacoinOutput{{Value: out.SiacoinOutput.Value, Address: types.VoidAddress}}}
+		b2, ok := edgeMine(cs1, time.Unix(t0.Unix()+6, 0), types.VoidAddress, []types.V2Transaction{txn})
+		if !ok {
+			continue
+		}
+		err := consensus.ValidateBlock(cs1, b2, consensus.V1BlockSupplement{})
+		b.Eval(1)
+		b.Count("half_second_median_lock_cases", 1)
+		b.Distinct("edge", "half-second-median", c.lockOffset)
+		switch {
+		case c.accept && err != nil:
+			b.Violate("C08/late-reject/v2-after-policy/median-on-a-half-second", fmt.Sprintf("previous timestamps {t0, t0+5s} (median t0+2.5s): a spend locked by after(t0+%ds) is rejected: %v", c.lockOffset, err), map[string]any{"lock_offset": c.lockOffset})
+		case !c.accept && err == nil:
+			b.Violate("C08/early-accept/v2-after-policy/median-on-a-half-second", fmt.Sprintf("previous timestamps {t0, t0+5s} (median t0+2.5s): a spend locked by after(t0+%ds) is accepted", c.lockOffset), map[string]any{"lock_offset": c.lockOffset})
+		}
+	}
 }
